@@ -214,7 +214,18 @@ def _save_writes_its_argument(ck):
     rows_param = V(fn.call_params()[0].name)
     results = p.find_class("AlignmentResults")
     n = 0
-    for pa in explore(ck, fn):
+    paths = [pa for pa in explore(ck, fn) if pa.outcome in ("return", "fall")]
+    silent = [pa for pa in paths if not any(e.kind == "call" and e.term[0] == "app" and e.term[1].endswith("XmapReader.writeAlignments")
+                                            for e in pa.events)]
+    if silent and len(silent) < len(paths):
+        pa = silent[0]
+        conds = "; ".join(("" if tv else "not ") + T.show(c)[:60] for c, tv, _ in pa.state.assumptions[-3:])
+        ck.violation("C08.8", "saveAdditionalOutput:always-written", where(fn, pa.node),
+                     "an additional file is not written on every path: a file of that name left by an earlier run (another output mode, "
+                     "the same -o path) stays in place and no longer agrees with the main file beside it",
+                     found="path under: " + (conds or "<no condition>"), required="writeAlignments(<file>, AlignmentResults(..., rows)) on every path")
+    paths.sort(key=lambda pa: pa in silent)
+    for pa in paths:
         for e in pa.events:
             if e.kind == "call" and e.term[0] == "app" and e.term[1].endswith("XmapReader.writeAlignments"):
                 n += 1
